@@ -772,7 +772,15 @@ def plain_script(rng, name, kinds, mode="router", dev="tun", seconds=5):
         # forged datagrams from addresses that are no peers (a plain session itself offers no protection against a spoofed source: outside the properties)
         ops.append("ninject %d %s %s" % (v, rng.choice(["p77", "p78"]), hx(bytes([rng.choice([0, 1, 2, 0xff, 0x10])]) + rng.bytes(rng.below(30)))))
         ops += drain(3)
-    return Script(name, ops, {"suite": "node"})
+    if all(k is True or k == "only" for k in kinds) or all(k is True for k in kinds):
+        # every pair shares 'plain' (or a cipher): all sessions must be usable in both directions
+        for a in ports:
+            for b in ports:
+                if a != b:
+                    f = ipv4_packet(ip4(a), ip4(b), b"end") if dev == "tun" else eth_frame(macs[b - 1], macs[a - 1])
+                    ops += ["nframe %d %s" % (a, hx(f))] + drain(len(ports))
+        ops.append("nexpect mesh " + " ".join(map(str, ports)))
+    return Script(name, ops, {"suite": "node", "noshrink": any(o.startswith("nexpect") for o in ops)})
 
 
 def advertised_script(rng, name, seconds=8):
@@ -991,9 +999,11 @@ def plain_long_script(rng, name, pt, seconds):
         ops.append(node_line(p, key=(p - 1) % 2, trust=(0, 1), algos=algos_str(True, []), ka="-", pt=pt))
     ops += connect_chain(3)
     t = 0
-    for _ in range(seconds):
+    for k in range(seconds):
         t += 1
         ops += second(ports, t)
+        if k == 5:
+            ops += ["nexpect mesh 1 2 3", "nexpect stable"]          # from here on: stable membership, delivering network
     ops.append("nexpect mesh 1 2 3")
     return Script(name, ops, {"suite": "node", "noshrink": True})
 
